@@ -155,38 +155,7 @@ func rulesC01(c *Ctx) {
 	ruleDeepCopy(c, dirT, fileT)
 
 	// ---- R5 snapshot out ----------------------------------------------------------
-	n5 := 0
-	for _, mn := range []string{"ReadFile", "ReadDir"} {
-		f := methods[mn]
-		if f == nil {
-			c.Bad("R5", "memfs.(Filespace)."+mn, 0, "anchor not found")
-			continue
-		}
-		n5++
-		con := "result of memfs.(Filespace)." + mn
-		bad := ""
-		for _, r := range returnsOf(f) {
-			if len(r.Results) == 0 {
-				continue
-			}
-			v := r.Results[0]
-			if _, ok := v.Type().Underlying().(*types.Slice); !ok {
-				continue
-			}
-			os := Origins(v, FlowOpts{Alias: true, Interproc: 3})
-			for _, o := range os {
-				if o.Kind == "field" && (o.Name == "memfs.File.data" || o.Name == "memfs.Dir.nodes") {
-					bad = "the returned slice shares its backing store with " + o.Name
-				}
-				if o.Kind == "param" || o.Kind == "unknown" {
-					bad = "cannot establish that the returned slice is a fresh copy (" + o.String() + ")"
-				}
-			}
-		}
-		c.Check(bad == "", "R5", con, f.Pos(), "every returned slice originates from a fresh allocation",
-			bad+" — a later Remove/write changes what the caller already holds (and races with it)")
-	}
-	c.Floor("R5", n5, 2)
+	c.Floor("R5", ruleSnapshotOut(c, "R5", methods), 2)
 
 	// ---- R6 snapshot in --------------------------------------------------------------
 	ruleSnapshotIn(c, methods, fileT)
@@ -704,4 +673,41 @@ func emptyPredicate(h *ssa.Function) (isPred, trueMeansEmpty bool) {
 		trueMeansEmpty, first = pos, false
 	}
 	return !first, trueMeansEmpty
+}
+
+// ruleSnapshotOut (C01.R5, C09.L9): what ReadFile/ReadDir hand out shares no backing store with
+// File.data / Dir.nodes (a later write or remove would change - and race with - what the caller holds).
+func ruleSnapshotOut(c *Ctx, rule string, methods map[string]*ssa.Function) int {
+	n5 := 0
+	for _, mn := range []string{"ReadFile", "ReadDir"} {
+		f := methods[mn]
+		if f == nil {
+			c.Bad(rule, "memfs.(Filespace)."+mn, 0, "anchor not found")
+			continue
+		}
+		n5++
+		con := "result of memfs.(Filespace)." + mn
+		bad := ""
+		for _, r := range returnsOf(f) {
+			if len(r.Results) == 0 {
+				continue
+			}
+			v := r.Results[0]
+			if _, ok := v.Type().Underlying().(*types.Slice); !ok {
+				continue
+			}
+			os := Origins(v, FlowOpts{Alias: true, Interproc: 3})
+			for _, o := range os {
+				if o.Kind == "field" && (o.Name == "memfs.File.data" || o.Name == "memfs.Dir.nodes") {
+					bad = "the returned slice shares its backing store with " + o.Name
+				}
+				if o.Kind == "param" || o.Kind == "unknown" {
+					bad = "cannot establish that the returned slice is a fresh copy (" + o.String() + ")"
+				}
+			}
+		}
+		c.Check(bad == "", rule, con, f.Pos(), "every returned slice originates from a fresh allocation",
+			bad+" — a later Remove/write changes what the caller already holds (and races with it)")
+	}
+	return n5
 }
